@@ -43,6 +43,10 @@ pub struct Shutdown {
     /// time was given, so the module restarts
     #[serde(default)]
     pub plain_first: bool,
+    /// the message of the shutdown event is sent after the request instead of before it (the module is up until the
+    /// end of the event in which it requests its shutdown)
+    #[serde(default)]
+    pub bye_after_request: bool,
 }
 
 #[derive(Debug, Clone, Serialize, Deserialize, PartialEq)]
@@ -224,8 +228,13 @@ impl Module for Victim {
                 let killer = async move {
                     sleep_until(st(sd.at)).await;
                     log(2 + k, k, inc, Kind::KillerFired(j));
-                    send(Message::default().kind(K_BYE).id(j as u16), "up");
-                    request_with(sd.restart, sd.plain_first);
+                    if sd.bye_after_request {
+                        request_with(sd.restart, sd.plain_first);
+                        send(Message::default().kind(K_BYE).id(j as u16), "up");
+                    } else {
+                        send(Message::default().kind(K_BYE).id(j as u16), "up");
+                        request_with(sd.restart, sd.plain_first);
+                    }
                 };
                 if local {
                     tokio::task::spawn_local(killer);
@@ -248,8 +257,14 @@ impl Module for Victim {
             K_CMD => {
                 let j = h.id as usize;
                 log(2 + self.k, self.k, self.inc, Kind::Cmd(j));
-                send(Message::default().kind(K_BYE).id(j as u16), "up");
-                request_with(self.plan.shutdowns[j].restart, self.plan.shutdowns[j].plain_first);
+                let sd = self.plan.shutdowns[j];
+                if sd.bye_after_request {
+                    request_with(sd.restart, sd.plain_first);
+                    send(Message::default().kind(K_BYE).id(j as u16), "up");
+                } else {
+                    send(Message::default().kind(K_BYE).id(j as u16), "up");
+                    request_with(sd.restart, sd.plain_first);
+                }
             }
             K_DATA => log(2 + self.k, self.k, self.inc, Kind::Data(h.id as usize)),
             _ => {}
@@ -757,7 +772,7 @@ pub fn gen_case(rng: &mut Rng, coincide: bool) -> Case {
                 1..=2 => Restart::In(d),
                 _ => Restart::At(at + d),
             };
-            shutdowns.push(Shutdown { at, via_task: rng.chance(1, 2), restart, plain_first: rng.chance(1, 4) });
+            shutdowns.push(Shutdown { at, via_task: rng.chance(1, 2), restart, plain_first: rng.chance(1, 4), bye_after_request: rng.chance(1, 3) });
             match restart {
                 Restart::Never => break,
                 _ => t = at + d,
@@ -767,7 +782,7 @@ pub fn gen_case(rng: &mut Rng, coincide: bool) -> Case {
         if let Some(first) = shutdowns.first().copied() {
             if let Some(rt) = restart_time(&first) {
                 if rt > first.at + 30 * MS && rng.chance(1, 3) {
-                    shutdowns.push(Shutdown { at: first.at + 20 * MS, via_task: rng.chance(1, 2), restart: Restart::In(12 * MS), plain_first: false });
+                    shutdowns.push(Shutdown { at: first.at + 20 * MS, via_task: rng.chance(1, 2), restart: Restart::In(12 * MS), plain_first: false, bye_after_request: false });
                 }
             }
         }
@@ -894,6 +909,7 @@ pub fn cmd(args: &Args) -> Report {
         rep.count("async_fn_victims_restarted", case.victims.iter().zip(&r.downs).filter(|(v, d)| v.async_fn && d.iter().any(|(_, rt)| rt.is_some())).count() as u64);
         rep.count("victims_with_spawn_local_tasks_shut_down", case.victims.iter().zip(&r.downs).filter(|(v, d)| v.local_tasks && !d.is_empty()).count() as u64);
         rep.count("data_messages_due_while_down", dropped_data as u64);
+        rep.count("shutdown_events_sending_a_message_after_the_request", case.victims.iter().flat_map(|v| v.shutdowns.iter()).filter(|s| s.bye_after_request).count() as u64);
         rep.count("restart_requests_issued_right_after_a_plain_shutdown_in_the_same_event", case.victims.iter().flat_map(|v| v.shutdowns.iter()).filter(|s| s.plain_first && s.restart != Restart::Never).count() as u64);
         rep.count("events_seen_by_victim_processing_stacks", o.log.iter().filter(|e| e.kind == Kind::PluginEvent).count() as u64);
         rep.count("victims_spawning_a_sleeping_task_in_reset", case.victims.iter().zip(&r.downs).filter(|(v, d)| v.reset_task_ns > 0 && !d.is_empty()).count() as u64);
